@@ -123,6 +123,95 @@ def spec_files(spec: dict):
         info["_spec"] = spec
         apply_patches(img, spec["patches"], rng, "akai", info)
         return {"x.img": bytes(img)}, "x.img"
+    if fam == "akai-program":
+        # a program file whose keygroup chain / count bytes are damaged (S197: a link to itself or backwards, a count
+        # byte of 255, a first-keygroup address inside the header)
+        import gen_akai_prog as GP
+
+        pr = GP.random_program(rng, "PROG 1", nkg=spec["nkg"], layout="standard")
+        files = [GA.SampleFile("KICK", GA.random_words(rng, 300)), pr, GA.SampleFile("PAD", GA.random_words(rng, 200))]
+        size = sum(-(-len(f.content()) // 8192) for f in files) + 10
+        img, info = GA.serialize(GA.Disc([GA.Partition([GA.Volume("VOL", files)], sectors=size)]), rng, shapes=("contiguous",))
+        img = bytearray(img)
+        pf = [f for f in info["files"] if f["name"] == "PROG 1"][0]
+        base = pf["pstart"] + pf["secs"][0] * 8192
+        n = spec["nkg"]
+        addr = lambda i: 150 + 150 * i
+        k = spec["damage"]
+        if k == "self":
+            put16(img, base + addr(n // 2) + 1, addr(n // 2))
+        elif k == "back":
+            put16(img, base + addr(n - 1) + 1, addr(0))
+        elif k == "back-mid":
+            put16(img, base + addr(max(0, n - 2)) + 1, addr(0))
+        elif k == "count-255":
+            img[base + 42] = 255
+        elif k == "count-255-self":
+            img[base + 42] = 255
+            put16(img, base + addr(n - 1) + 1, addr(n - 1))
+        elif k == "zones-255":
+            img[base + addr(0) + 31] = 255
+        elif k == "first-in-header":
+            put16(img, base + 1, rng.choice([0, 1, 40, 71]))
+        elif k == "next-huge":
+            put16(img, base + addr(0) + 1, rng.choice([0xFFFF, 0x7FFF, len(pr.content()) - 1]))
+        return {"x.img": bytes(img)}, "x.img"
+    if fam == "akai-program-counts":
+        # KF-C13-program-count-bytes: the one-byte keygroup count and the one-byte zone count multiply - 255 keygroups
+        # read from ONE address (the keygroup links to itself), 255 zones each, in each of `nprog` programs
+        nk = nz = 255
+        h = bytearray(150)
+        h[0] = 1
+        struct.pack_into("<H", h, 1, 150)
+        h[3:15] = GA.akai_name("P")
+        h[18] = 1
+        h[42] = nk
+        kg = bytearray(34)
+        kg[0] = 2
+        struct.pack_into("<H", kg, 1, 150)
+        kg[31] = nz
+        z = bytearray(24)
+        z[0:12] = GA.akai_name("S")
+        z[13] = 127
+        pr = bytes(h) + bytes(kg) + bytes(z) * nz + bytes(2 + nz + nz + 2 * nz + 2)
+        files = [GA.SampleFile("KICK", GA.random_words(rng, 300))] + [GA.RawFile("PROG %d" % (i + 1), pr, 0x70) for i in range(spec["nprog"])]
+        size = sum(-(-len(f.content()) // 8192) for f in files) + 10
+        img, info = GA.serialize(GA.Disc([GA.Partition([GA.Volume("VOL", files)], sectors=size)]), rng, shapes=("contiguous",))
+        return {"x.img": bytes(img)}, "x.img"
+    if fam == "akai-alias-chain":
+        # the memory face of KF-C13-aliased-entries: every entry of a k-sector directory names the head of ONE chain of
+        # `chain` sectors that exists in the table only (the image ends behind the directory); listing the volume builds
+        # a sector list per entry
+        k, n = spec["k"], spec["chain"]
+        disc = GA.Disc([GA.Partition([GA.Volume("VOL", [GA.SampleFile("ONE", GA.random_words(rng, 10))], dir_sectors=k, dir_first=True)], sectors=3 + k + 2)])
+        img, info = GA.serialize(disc, rng, shapes=("contiguous",))
+        img = bytearray(img)
+        for j in range(n):
+            put16(img, 1802 + 2 * (200 + j), 201 + j if j + 1 < n else 0xC000)
+        dbase = info["files"][0]["dsecs"][0] * 8192
+        entry = bytearray(img[dbase:dbase + 24])
+        entry[20:22] = struct.pack("<H", 200)
+        cnt = (k * 8192) // 24 - 1
+        for i in range(cnt):
+            e = bytearray(entry)
+            e[0:12] = GA.akai_name(f"F{i:05d}")
+            img[dbase + 24 * i: dbase + 24 * i + 24] = e
+        img[dbase + 24 * cnt: dbase + 24 * cnt + 24] = bytes(8) + struct.pack("<H", 0xD747) + bytes(14)
+        return {"x.img": bytes(img)}, "x.img"
+    if fam == "akai-runheads":
+        # in every partition: H free sectors hold links into ONE long run of reserved-flag sectors, at descending
+        # positions - a decoder that re-walks the run for every head costs H x run (D22)
+        parts = [GA.Partition([GA.Volume("V%d" % k, [GA.SampleFile("S", GA.random_words(rng, 100))])], sectors=8) for k in range(spec["parts"])]
+        img, info = GA.serialize(GA.Disc(parts), rng, shapes=("contiguous",))
+        img = bytearray(img)
+        H, base, N = spec["H"], 300, 11386
+        for pk in range(spec["parts"]):
+            off = pk * 8 * 8192 + 1802
+            for k in range(H):
+                put16(img, off + 2 * (base + k), base + H + (H - 1 - k))
+            for j in range(base + H, N):
+                put16(img, off + 2 * j, 0x4000)
+        return {"x.img": bytes(img)}, "x.img"
     if fam == "roland-dense":
         # every pointer table full of valid pointers (KF-C13-roland-pointer-fanout): `export` writes one file per
         # (volume, performance, patch, sample of the patch) - the product of the fan-outs, not the size of the image
@@ -514,6 +603,12 @@ def make_specs(ctx, rng, full: bool):
         for pw in ("first", "last"):
             add(family="akai", patches=["psize"], pvalue=pv, pwhich=pw)
     add(family="akai-alias", k=6, m=24)
+    add(family="akai-runheads", parts=3, H=3700)
+    add(family="akai-program-counts", nprog=3)
+    add(family="akai-alias-chain", k=12, chain=11000)
+    for dmg in ("self", "back", "back-mid", "count-255", "count-255-self", "zones-255", "first-in-header", "next-huge"):
+        for nkg in ((2, 5) if not full else (1, 2, 3, 5, 9)):
+            add(family="akai-program", damage=dmg, nkg=nkg)
     if full:
         add(family="roland-dense", nv=4, npf=64, npa=32, npt=88)
     reps = ctx.n(4, 60)
@@ -543,10 +638,16 @@ def spec_kind(spec):
         return "rand-" + spec.get("prefix", "none")
     if spec["family"] == "cdda":
         return "cdda-" + spec["kind"]
-    if spec["family"] == "akai-alias":
+    if spec["family"] in ("akai-alias", "akai-alias-chain"):
         return "akai-alias-entries"
     if spec["family"] == "roland-dense":
         return "roland-dense-pointers"
+    if spec["family"] == "akai-runheads":
+        return "akai-run-heads"
+    if spec["family"] == "akai-program-counts":
+        return "akai-program-counts"
+    if spec["family"] == "akai-program":
+        return "akai-program-" + spec["damage"]
     return spec["family"] + "-" + "+".join(sorted(set(spec["patches"])))
 
 
@@ -579,7 +680,7 @@ def run(ctx, rep: Report, deep: bool = False):
             # the 20000-cluster phantom chain of `key-interleave` is left to the oracle as well (the model walks lists)
             # and so is the aliased-entries image: its tie would hold 400 MB of output in the measuring process
             # and the 60000-cluster descending chain (the model keeps the re-walking decoder, quadratic over lists)
-            heavy = "key-interleave" in spec.get("patches", []) or "fat-descending" in spec.get("patches", []) or spec["family"] in ("akai-alias", "roland-dense")
+            heavy = "key-interleave" in spec.get("patches", []) or "fat-descending" in spec.get("patches", []) or spec["family"] in ("akai-alias", "roland-dense", "akai-runheads", "akai-program", "akai-program-counts", "akai-alias-chain")
             tie = ctx.model_available and not long_cue and not heavy and (spec["id"] % (1 if spec["family"] != "roland" else 2) == 0)
             meta[spec["id"]] = dict(spec=spec, size=size, dir=d, main=mp, tie=tie)
             pool.submit(spec["id"], (lambda mp=mp, d=d, tie=tie: tool_run(mp, d, tie)), cpu_bound(size), mem_bound(size), 4 * cpu_bound(size) + 20)
